@@ -21,7 +21,8 @@ ASSUMPTIONS = [
 ]
 JOBS = 14
 SPEC_TIMEOUT = 900
-CONFIRM_ALONE = ('pool_hung', 'job_never_resolved')
+CONFIRM_ALONE = ('pool_hung', 'job_never_resolved', 'loss_never_reported',
+                 'join_hung_after_worker_death', 'pool_hung_after_worker_death')
 FLOORS = {
     'quick': {'sim:ready_processed': 3000, 'sim:ack_processed': 4000, 'sim:loss_marks': 200,
               'sim:dup_messages': 150, 'sim:unknown_job_messages': 50, 'sim:put_failures': 40,
@@ -44,6 +45,10 @@ def nontrivial(sim):
 def plan(tier, seed):
     per, hist = (3, 70) if tier == 'quick' else (10, 220)
     specs = simcheck.sim_specs(['c01', 'c01', 'c04', 'c05', 'c09', 'c10'], seed, per, hist)
+    specs += [{'lane': 'real', 'after_close': True, 'timeout': 120, 'params': {
+        'nproc': n, 'how': how, 'T_job': T, 'T': 2.0, 'delay': 1.0, 'others': 0 if n == 1 else 2}}
+        for (n, how, T) in ([(1, 'sig:9', 1.0)] if tier == 'quick' else
+                            [(1, 'sig:9', 1.0), (2, 'exit:1', 0.5), (1, 'exit:70', 2.0)])]
     try:
         from vmon import real_c01
         specs += real_c01.plan(tier, seed)
@@ -55,5 +60,10 @@ def plan(tier, seed):
 def run_spec(spec, rec):
     if spec.get('lane') == 'sim':
         return simcheck.run_sim_spec(spec, rec, PROPERTY, nontrivial)
+    if spec.get('after_close'):
+        # a worker dies after close(): the job must still reach its (pool-made)
+        # outcome through the result handler's shutdown loop (scenario shared with C04)
+        from vmon import real_c04
+        return real_c04.run_after_close(spec, rec)
     from vmon import real_c01
     return real_c01.run_spec(spec, rec)
